@@ -485,7 +485,8 @@ func isControlEvent(e PDU) bool {
 		// Membership events are only control events if the "membership" key in the
 		// content is "leave" or "ban" so we need to extract the content.
 		var content MemberContent
-		if err := json.Unmarshal(e.Content(), &content); err != nil {
+		// member names are exact, as in NewMemberContentFromEvent
+		if err := json.Unmarshal(exactMembersOnly(e.Content(), &content), &content); err != nil {
 			break
 		}
 		// If the "membership" key is set and is set to either "leave" or "ban" then
